@@ -62,7 +62,10 @@ def best_cases(draw):
         else:
             best = [c - 1.0 for c in cur[:-1]] + [cur[-1]]
         parts.append({"cur": cur, "best": best})
-    return {"alg": draw(st.sampled_from(ALGS)), "parts": parts}
+    # PSOGA hands a GA child the *same* features dict as its parent: two particles then share one personal best and are
+    # updated one after the other
+    share = draw(st.booleans()) and len(parts) >= 2
+    return {"alg": draw(st.sampled_from(ALGS)), "parts": parts, "share": share}
 
 
 def check_best(case):
@@ -79,9 +82,25 @@ def check_best(case):
                 ind.features["best_cost"] = list(p["best"])
                 ind.features["best_vector"] = [9.0, 9.0]
                 swarm.append(ind)
+            if case.get("share"):
+                swarm[1].features = swarm[0].features          # one shared dict, as PSOGA.run() does
             alg.update_particle_best(swarm)
         nt = False
-        for ind, p in zip(swarm, case["parts"]):
+        if case.get("share"):
+            # sequential semantics on the shared best: particle 0 first, then particle 1 against the result
+            best, bvec = list(case["parts"][0]["best"]), [9.0, 9.0]
+            for ind, p in list(zip(swarm, case["parts"]))[:2]:
+                if O.verdict(best, p["cur"]) != 1:
+                    best, bvec = list(p["cur"]), list(ind.vector)
+            got_b, got_v = list(swarm[0].features["best_cost"]), list(swarm[0].features["best_vector"])
+            if got_b != best or got_v != bvec:
+                raise Violation("personal-best", "shared-best", "%s: two particles sharing one personal best (costs %r then "
+                                "%r, old best %r): best became %r / %r, expected %r / %r" % (
+                                    case["alg"], case["parts"][0]["cur"], case["parts"][1]["cur"], case["parts"][0]["best"],
+                                    got_b, got_v, best, bvec))
+        for k_, (ind, p) in enumerate(zip(swarm, case["parts"])):
+            if case.get("share") and k_ < 2:
+                continue
             old_dominates = O.verdict(p["best"], p["cur"]) == 1
             bc, bv = list(ind.features["best_cost"]), list(ind.features["best_vector"])
             if old_dominates:
@@ -218,7 +237,10 @@ def check_position(case):
 def run_cases(draw):
     return {"alg": draw(st.sampled_from(ALGS)), "n": draw(st.integers(1, 3)), "m": draw(st.sampled_from([1, 2, 2, 3])),
             "N": draw(st.sampled_from([2, 2, 3, 3, 4, 5, 8])), "G": draw(st.integers(1, 5)),
-            "seed": draw(st.integers(0, 2 ** 31))}
+            "seed": draw(st.integers(0, 2 ** 31)),
+            # a measured (noisy) objective: the same design evaluated twice gets different costs - particles that are
+            # reset onto the same corner of the box then enter the leader archive with equal vectors, different costs
+            "noisy": draw(st.booleans())}
 
 
 def robust_dominates(p, q):
@@ -236,6 +258,7 @@ def check_run(case):
     holder = {}
     snaps = []
     truncs = [0]
+    ncall = [0]
 
     def ev(ind):
         alg = holder.get("alg")
@@ -243,7 +266,11 @@ def check_run(case):
             snaps.append([list(x.costs_signed) for x in alg.leaders])
         x = ind.vector
         centres = [0.0, 1.0, -0.5]      # conflicting objectives: a real trade-off front, so the archive fills up
-        return [sum((xi - centres[j]) ** 2 for xi in x) for j in range(m)]
+        out = [sum((xi - centres[j]) ** 2 for xi in x) for j in range(m)]
+        if case.get("noisy"):
+            ncall[0] += 1
+            out = [v + 0.05 * (((ncall[0] * 7919 * (j + 1)) % 101) / 101.0 - 0.5) for j, v in enumerate(out)]
+        return out
     ps = [{"name": "x%d" % i, "bounds": [-1.0, 2.0]} for i in range(n)]
     cs = [{"name": "f%d" % j, "criteria": "minimize"} for j in range(m)]
     prob = make_problem(ps, cs, ev)
